@@ -421,4 +421,50 @@ theorem parseErrs_ok (coords : List Name) : ∀ (errs : List (Name × Nat)),
     exact ⟨{ coord := c, tail := (err.drop 6).drop (c.length + 1), ind := ind } :: tail,
       by simp [parseErrs, hc, ht, bind, Except.bind, pure, Except.pure], by simp [hl]⟩
 
+/-! ### helper lemmas for `graph.__add__` -/
+
+theorem sameLengths_of_all (m : Nat) : ∀ (cols : List (List Q)), (∀ c ∈ cols, c.length = m) → sameLengths cols = true
+  | [], _ => rfl
+  | c :: cs, h => by
+    simp only [sameLengths, List.all_eq_true, beq_iff_eq]
+    intro x hx
+    rw [h x (List.mem_cons_of_mem _ hx), h c List.mem_cons_self]
+
+theorem mkGraph_parse (coords : List (List Q)) (fn : FieldNamesArg) (sc : Option Q) (g : Graph)
+    (h : mkGraph coords fn sc = .ok g) :
+    parseErrorNames g.fieldNames = .ok g.parsed ∧ g.dim = g.fieldNames.length - g.parsed.length := by
+  unfold mkGraph at h
+  by_cases hc : coords.isEmpty = true
+  · simp [hc] at h
+  by_cases hs : sameLengths coords = true
+  case neg => simp [hc, hs] at h
+  cases hn : fieldNamesTuple fn with
+  | error e => simp [hc, hs, hn, bind, Except.bind] at h
+  | ok names =>
+    by_cases hl : names.length = coords.length
+    case neg => simp [hc, hs, hn, hl, bind, Except.bind] at h
+    by_cases hd : hasDuplicates names = true
+    · simp [hc, hs, hn, hl, hd, bind, Except.bind] at h
+    cases hp : parseErrorNames names with
+    | error e => simp [hc, hs, hn, hl, hd, hp, bind, Except.bind] at h
+    | ok parsed =>
+      simp only [hc, hs, hn, hl, hd, hp, bind, Except.bind, pure, Except.pure] at h
+      simp at h
+      subst h
+      exact ⟨hp, by simp [hl]⟩
+
+theorem sameLengths_iff (cols : List (List Q)) (c : List Q) :
+    sameLengths (c :: cols) = true ↔ ∀ x ∈ cols, x.length = c.length := by
+  simp [sameLengths]
+
+theorem sameCoordLengths_ok (a b : List (List Q)) : ∀ k, k ≤ a.length → k ≤ b.length →
+    (∀ i (_ : i < k) (ha : i < a.length) (hb : i < b.length), a[i].length = b[i].length) →
+    sameCoordLengths a b k = .ok true
+  | 0, _, _, _ => rfl
+  | k + 1, hka, hkb, h => by
+    have ih := sameCoordLengths_ok a b k (by omega) (by omega) (fun i hi ha hb => h i (by omega) ha hb)
+    have h1 : a[k]? = some a[k] := List.getElem?_eq_getElem (by omega)
+    have h2 : b[k]? = some b[k] := List.getElem?_eq_getElem (by omega)
+    simp [sameCoordLengths, ih, h1, h2, h k (by omega) (by omega) (by omega), bind, Except.bind, pure, Except.pure]
+
 end Lena.C12
